@@ -81,6 +81,16 @@ def generate(rng, tier):
                 for actor in actors:
                     if actor["ops"] and actor["ops"][-1]["op"] == "raise":
                         actor["ops"][-1]["chained"] = True
+            if rng.random() < 0.3:
+                # the failure escapes its root as a Concurrent: it is that of a child in a scope
+                # of the root (run() has to re-raise the Concurrent, not its content)
+                failing = [a for a in actors if a["ops"] and a["ops"][-1]["op"] == "raise"]
+                actor = failing[0]
+                for other in failing[1:]:        # the only failure of this run
+                    other["ops"].pop()
+                actor["ops"][-1].pop("chained", None)
+                actor["ops"] = [{"op": "scope", "label": "SC", "body": [{"op": "sleep", "d": 64}],
+                                 "children": [{"name": actor["name"] + "c", "ops": actor["ops"]}]}]
             scenario = {"start": start, "roots": "direct", "resources": {}, "actors": actors}
             if rng.random() < 0.3:
                 scenario["till"] = start + 50
@@ -255,6 +265,8 @@ def _check_run(bad, index, kind, scenario, rec):
             bad("harness", "run %d: no failing event generated" % index)
         elif first_bad[4] == "raise":
             want = ("raise", (first_bad[5], first_bad[6]))
+            if first_bad[3] not in roots:        # a child in a scope of a root
+                want = ("raise", ("Concurrent", want[1]))
             if rec.outcome != want:
                 bad("root-exception", "run %d: root %s raised %r but run() ended with %r"
                     % (index, first_bad[3], want[1], rec.outcome))
@@ -273,7 +285,9 @@ def _check_run(bad, index, kind, scenario, rec):
             pos = rec.trace.index(first_bad)
             # with till the roots are children of a scope: siblings may finish the time step
             later = [ev for ev in rec.trace[pos + 1:] if ev[4] not in ("exc",)
-                     and (scenario.get("till") is None or ev[2] > first_bad[2])]
+                     and (scenario.get("till") is None or ev[2] > first_bad[2])
+                     # a child's failure takes some turns of that time step to leave its root
+                     and not (first_bad[3] not in roots and ev[2] == first_bad[2])]
             if later:
                 bad("ran-after-failure", "run %d: %r happened after the run had failed"
                     % (index, later[0][3:6]))
